@@ -5,10 +5,11 @@ Byte-level theorems about the reference model M6 (a file's content is the log of
 and truncations; the `seq` correspondence compares every READ of the server with it,
 including reads of holes, of gaps left by writing or truncating beyond the end, of regions
 re-exposed by growing after a shrink, and of blocks recycled from deleted files).
-The block-level half (freed blocks are zeroed on disk) belongs to the block-map model and is
-listed as pending in the evidence.
+The block-level half is on the block-map model M7: every block freed by a truncation is all
+zeros afterwards (`freed_blocks_are_all_zeros`), and truncation writes nothing but zeros.
 -/
 import GoNfsd.Lemmas.FsStep
+import GoNfsd.Lemmas.InoOps
 
 namespace GoNfsd.Props.C12
 open GoNfsd.Model.Fs GoNfsd.Gen.Consts
@@ -93,5 +94,27 @@ theorem setattr_touches_one_file (s : FS) (c : Choice) (fh : Bytes) (sz : Option
     reads zero at position 2000 in the model. -/
 example : byteAt (resize (resize { kind := 1, size := 8192, content := [.write 0 (Array.replicate 8192 171)] } 100) 4096).content 2000 = 0 := by
   decide
+
+/-! ### at the block level (model M7): a block changes owner only through zero -/
+
+open GoNfsd.Model.BlockMap in
+/-- OLD DATA IS NEVER EXPOSED THROUGH THE ALLOCATOR: every block the run of `Shrink` passes to
+    `FreeBlock` — data blocks and index blocks, whatever range the truncation covers — is all
+    zeros when the run ends (it was zeroed when it was freed and nothing writes to it afterwards),
+    so the next owner of the block, whoever it is, starts from zeros: exactly what the hypothesis
+    `WFB.fresh` of the mapping theorems asks of a block the allocator hands out. -/
+theorem freed_blocks_are_all_zeros (s : S) (blks : List Nat) (T N b : Nat)
+    (h : b ∈ (shrinkTo s blks T N).1.freed) (hnew : b ∉ s.freed) :
+    ∀ x, (shrinkTo s blks T N).1.st b x = 0 := by
+  rcases shrinkTo_freed_zero T N s blks b h with h1 | h1
+  · exact absurd h1 hnew
+  · exact h1
+
+open GoNfsd.Model.BlockMap in
+/-- … and a block that is still mapped afterwards keeps every cell that is not cleared: the run
+    only ever ZEROES cells (it never writes anything else anywhere). -/
+theorem truncation_only_zeroes (s : S) (blks : List Nat) (T N y x : Nat) :
+    (shrinkTo s blks T N).1.st y x = s.st y x ∨ (shrinkTo s blks T N).1.st y x = 0 :=
+  shrinkTo_cells T N s blks y x
 
 end GoNfsd.Props.C12
